@@ -949,6 +949,12 @@ def untraced_check(sc):
     pb = [[e for e in s["e"] if e[0] != "T"] for s in b_]
     if pa != pb:
         return "user predicates / functions are called differently with tracing on", True
+    # the library's own tracer, log_to(...): rendering the events must not interfere either
+    c = observe_query(sc, traced="log_to")
+    sc_ = [s["s"] for s in c] if c != "nosrc" else c
+    if sc_ != sb:
+        k = next((i for i in range(min(len(sc_), len(sb))) if sc_[i] != sb[i]), min(len(sc_), len(sb)))
+        return f"call {k}: with trace=log_to(...) {json.dumps(sc_[k] if k < len(sc_) else None)[:160]} untraced {json.dumps(sb[k] if k < len(sb) else None)[:160]}", True
     return None, any(s[0] in ("R", "V") for s in sa)
 
 
@@ -1103,7 +1109,8 @@ def spelling_oracle(ctx):
         except Exception:  # noqa
             pass
     names |= set(dir(path)) | {"k", "x_y", "_private", "keys", "items", "data", "path", "match", "vertex", "_vertex", "name",
-                                    "_Ledger__total", "_A__b_c", "__x", "_x__", "x__y", "_"}
+                                    "_Ledger__total", "_A__b_c", "__x", "_x__", "x__y", "_",
+                                    "\ufb01le", "\u00b5m", "x\u00b2", "\u2460", "\u212b"}
     names = sorted(n for n in names if not (n.startswith("__") and n.endswith("__")) and n not in DOCUMENTED_ATTRS)
     it = iter(names)
     _run(ctx, "spelling", len(names), len(names), lambda rng: {"name": next(it)}, spelling_check)
